@@ -128,7 +128,14 @@ claim("C02", "construction-discipline checks over go/ssa (raw re-slices of holey
       "the three shape-specialising switches name all four sugar shapes; (R02e) the layout-sensitive row digest is only taken of canonicalRelation(). "
       "Extensionality itself and Equal within one type are not decided.", NOTE, "DESIGN.md §3 C02")
 
-for pid in ["C07"]:
+claim("C07", "effect analysis of printing paths (unordered sources must be ordered before they reach a writer), provenance of relation headings, collision-test rule for the slot builders",
+      "Decides structural necessary conditions of seed-independence: (R07b) in the call closure of every Format/String method and the bundle config "
+      "printer, a hash-ordered enumeration (Enumerator/Range/DictEnumerator, Go map range, Names.Names()) occurs only in functions that sort what they "
+      "collect or feed order-insensitive aggregates; (R07c) relation headings built from name sets are sorted; (R07a) the index-slot builders "
+      "asArray/asString/asBytes overwrite colliding slots in enumeration order (genuine, known findings). A full order-sensitivity classification of all "
+      "120 unordered loops, determinism of dependencies and of float reductions are not decided.", NOTE, "DESIGN.md §3 C07")
+
+for pid in []:
     na(pid, "check under construction in this session (see DESIGN.md §3); not claimed until its rules are registered")
 na("C14", "agreement of a hand-written array matcher with strings/bytes over all sequences is a relation between runtime values computed by "
           "loops with data-dependent indices; no sound structural clause with teeth exists (DESIGN.md §3 C14)")
